@@ -1,4 +1,5 @@
 import Rain.Log
+import Rain.LogFlags
 import Rain.Crc
 namespace Rain.Driver
 open Rain Rain.Log
@@ -26,6 +27,13 @@ def logCmd : List String → Option String
   | ["log.readalls", file] =>
     match ofHex file with
     | some f => let r := readAllS realCfg f; some s!"{if r.2 then "clean" else "dirty"} {r.1.length} {joinHex r.1}"
+    | none => none
+  | ["log.readallf", file] =>
+    -- records plus `was_read_cleanly_to_end` and `encountered_corruption`
+    match ofHex file with
+    | some f =>
+      let r := readAllF realCfg f
+      some s!"{if r.2.1 then "clean" else "dirty"} {if r.2.2 then "corrupt" else "intact"} {r.1.length} {joinHex r.1}"
     | none => none
   | ["log.crc", d] =>
     match ofHex d with
